@@ -344,6 +344,7 @@ class BaseSection(base.Sectionable):
             # Refuse a name clash at the destination before detaching from the old parent.
             if new_parent is not self._parent and self.name in new_parent.sections:
                 raise KeyError("Object with the same name already exists! " + str(self))
+            new_parent._refuse_own_ancestor(self)
             if self._parent is not None:
                 self._parent.remove(self)
             self._parent = new_parent
@@ -523,6 +524,7 @@ class BaseSection(base.Sectionable):
         :param obj: Section or Property object.
         """
         if isinstance(obj, BaseSection):
+            self._refuse_own_ancestor(obj)
             self._sections.append(obj)
             obj._parent = self
         elif isinstance(obj, BaseProperty):
@@ -557,6 +559,7 @@ class BaseSection(base.Sectionable):
                 if obj.name in self.sections or obj.name in new_sec_names:
                     msg = "odml.Section.extend: Section with name '%s' already exists." % obj.name
                     raise KeyError(msg)
+                self._refuse_own_ancestor(obj)
                 new_sec_names.append(obj.name)
 
             if isinstance(obj, BaseProperty):
@@ -582,6 +585,7 @@ class BaseSection(base.Sectionable):
                 raise ValueError("odml.Section.insert: "
                                  "Section with name '%s' already exists." % obj.name)
 
+            self._refuse_own_ancestor(obj)
             self._sections.insert(position, obj)
             obj._parent = self
         elif isinstance(obj, BaseProperty):
